@@ -23,6 +23,9 @@ from .leanfmt import lean_list, lean_str_cps, HEADER
 from . import regexes as rx
 
 CULTURES = [('zh-cn', 'Zh'), ('ja-jp', 'Ja')]
+# the regexes RTV.Model.NumCjk hands to `RTV.Re.findAll` (`findTexts` = finditer, `split` = regex.split); the others are
+# only searched.  They must not be able to match the empty string (RTV/Lemmas/ReNullable.lean).
+FINDITER = ('point', 'speGetNumber', 'fracSplit', 'digitalNumber')
 REGEXES = [('negSign', 'negative_number_sign_regex'), ('dozen', 'dozen_regex'), ('pair', 'pair_regex'),
            ('digitNum', 'digit_num_regex'), ('percentage', 'percentage_regex'), ('percentageNum', 'percentage_num_regex'),
            ('doubleAndRound', 'double_and_round_regex'), ('fracSplit', 'frac_split_regex'), ('point', 'point_regex'),
@@ -104,13 +107,20 @@ def generate():
                 continue
             pat, flags, groups = p
             try:
-                ast = rx.lean_re(rx.parse(pat, flags))
+                tree = rx.parse(pat, flags)
+                ast = rx.lean_re(tree)
             except rx.Unsupported as e:
                 raise ValueError('%s.%s: pattern not translatable: %s' % (code, attr, e))
+            if name in FINDITER and rx.nullable(tree):
+                raise ValueError(rx.NULLABLE_MSG % ('numcjk', '%s.%s' % (code, attr)))
             fl = {0: 'no flags', int(regex.I | regex.S): 'regex.I | regex.S'}.get(int(flags), 'flags %d' % flags)
             t += '/-- config.%s (%s): %s -/\n' % (attr, fl, pat.replace('-/', '- /'))
             t += 'def %s : Option RE := some (\n%s)\n' % (name, rx.wrap(ast))
             t += 'def %sGroups : Nat := %d\n\n' % (name, groups)
+        t += ('/-- the regexes the model iterates with `RTV.Re.findAll` cannot match the empty string: on them `findAll` is\n'
+              'the `finditer` of `regex` (`findAll_eq_findAllPy`, RTV/Lemmas/ReNullable.lean) -/\n'
+              'theorem finditer_safe : ([%s].all fun o => match o with | some r => !nullable r | none => true) = true := by\n'
+              '  decide +kernel\n\n' % ', '.join(FINDITER))
         t += '/-- zero_to_nine_map entries whose value is a float: (character, numerator, denominator) of the binary64 -/\n'
         t += 'def half : List (List Nat × Nat × Nat) := %s\n' % lean_list(
             ['(%s, %d, %d)' % (lean_str_cps(k), a, b) for k, (a, b) in d['half']], per_line=4)
